@@ -38,7 +38,7 @@ RULE = (
     "shear / taper, node jitter 0 / <=5 / <=15 / <=25 % of the shortest edge (all corner Jacobians > 0, scaled Jacobian "
     ">= 0.25); base edge 5e3..2e4 so that every size reached by the scale factors 0.1..100 stays >= 250 (guard noise "
     "< 1e-3 per cell). Per single cell ALL 24 (4) rotational renumberings; per assembly 6 rounds of independent "
-    "per-cell renumberings; 4-5 maps g (translate, rotate, scale, similarity, similarity+renumbering); cube -> box "
+    "per-cell renumberings; 4-5 maps g (translate, rotate, scale, similarity, similarity of a renumbered assembly); cube -> box "
     "stretch 1.05..10 along each direction for 1 and 2x2x2 cells. non-trivial: renumbering != identity on a cell that is "
     "not a perfect cube/square, g != identity, stretch factor >= 1.05; distinct by (kind, assembly, shape class, jitter "
     "class, clause, renumbering id | map kind | factor class)"
@@ -56,6 +56,17 @@ ASSUMPTIONS = [
 
 ABS_TOL = 2e-3
 REL_TOL = 1e-6
+
+
+def evidence_extra(counters, keys):
+    return {
+        "exhaustive_subspaces": {
+            "all 24 rotational renumberings of one hexahedron (cases)": counters.get("exhaustive:24-renumberings-of-one-hex", 0),
+            "all 4 rotational renumberings of one quadrilateral (cases)": counters.get("exhaustive:4-renumberings-of-one-quad", 0),
+        },
+        "largest_share_of_tolerance_used_by_a_passing_comparison": (
+            ">50%" if counters.get("tolerance-used:>50%") else ">10%" if counters.get("tolerance-used:>10%") else "<=10%"),
+    }
 
 HEX_ROT = [tuple(p) for p in hexconv.ROTATIONS]
 QUAD_ROT = [tuple((i + k) % 4 for i in range(4)) for k in range(4)]
